@@ -85,6 +85,9 @@ structure State where
   cnt : ObjId → Nat := fun _ => 0
   /-- `.fld` field of each object (last value assigned through `src.fld = x`), 0 = never -/
   fld : ObjId → Nat := fun _ => 0
+  /-- `TargetComponent::target` of each object, as set through the setter-backed field `.target`
+      (`"t<k>"` is `k`, 0 = never set) -/
+  tgt : ObjId → Nat := fun _ => 0
   log : List Ev := []
   out : List String := []
 
@@ -284,12 +287,23 @@ inductive Act
   | index (src : Src) (i : Nat)    -- print `src[i].id`
   deriving Repr, DecidableEq
 
+/-- a field backed by a setter event (`eventInfo.setterNum`, `ScriptVM::executeSetter`): the assigned
+    value is COPIED from the stack top into a one-argument `ScriptEvent` and the listener processes it.
+    `target x` = `EV_SimpleEntity_SetterTarget` → `TargetComponent::SetTarget("t<x>")`,
+    `name n` = `EV_SimpleEntity_SetterTargetname` → `TargetComponent::SetTargetName(n)`.  The value is
+    part of the constructor: every member a group assignment reaches gets this one value. -/
+inductive Setter
+  | target (x : Nat)
+  | name (n : Name)
+  deriving Repr, DecidableEq
+
 inductive Stmt
   | act (a : Act)
   | fan (src : Src) (h : List Act)     -- `src thread handler` (handler body `h`, self = each member)
   | fanName (src : Src) (n : Name)     -- `src targetname n`   (command applied to the group)
   | fanDelete (src : Src)              -- `src remove`
   | fieldSet (src : Src) (x : Nat)     -- `src.fld = x`
+  | fieldSetter (src : Src) (f : Setter)  -- `src.target = "t<x>"` / `src.targetname = n` (setter-backed fields)
   deriving Repr, DecidableEq
 
 def say (s : State) (t : String) : State := { s with out := s.out ++ [t] }
@@ -453,12 +467,37 @@ def fieldSet (cfg : Cfg) (s : State) (src : Src) (x : Nat) : Res :=
       | _ => .ok (say s "!cast")
     else .ok (say s "!cast")
 
+/-- what processing the setter event does on one listener -/
+def applySetter (f : Setter) (st : State) (o : ObjId) : Res :=
+  match f with
+  | .target x => .ok { st with tgt := upd st.tgt o x }
+  | .name n => .ok (setTargetName st o n)
+
+/-- `OP_LOAD_FIELD_VAR` on a setter-backed field: the same dispatch as `fieldSet` (single listener:
+    `loadTop`; group of more than one with the repair: `loadStoreTop` per member of the COPY —
+    `array = a; array.CastConstArrayValue()` — with `if (member)` skipping members that died), the
+    per-member effect is `executeSetter`.  `$g.targetname = "h"` empties the table's list of `g` while
+    the loop runs; the loop walks the copy, so every member of the snapshot is still reached. -/
+def fieldSetter (cfg : Cfg) (s : State) (src : Src) (f : Setter) : Res :=
+  match evalSrc cfg s src with
+  | .nil => .ok (say s "!nil")
+  | .obj none => .ok (say s "!null")
+  | .obj (some o) => applySetter f { s with log := s.log ++ [.visited o] } o
+  | a =>
+    if cfg.fieldFan then
+      match receivers s a with
+      | .group rs => fanLoop (applySetter f) rs s
+      | .ub => .ub
+      | _ => .ok (say s "!cast")
+    else .ok (say s "!cast")
+
 def stmt (cfg : Cfg) (s : State) : Stmt → Res
   | .act a => act cfg none s a
   | .fan src h => fanOut cfg (note cfg s (some src)) src (fun st o => acts cfg (some o) h st)
   | .fanName src n => fanOut cfg (note cfg s (some src)) src (fun st o => .ok (setTargetName st o n))
   | .fanDelete src => fanOut cfg (note cfg s (some src)) src (fun st o => .ok (destroy st o))
   | .fieldSet src x => fieldSet cfg (note cfg s (some src)) src x
+  | .fieldSetter src f => fieldSetter cfg (note cfg s (some src)) src f
 
 def run (cfg : Cfg) : List Stmt → State → Res
   | [], s => .ok s
